@@ -10,6 +10,9 @@
 //   load2 <ty> <hex1> <hex2>    -> one archive object: str(hex1), load (outcome ignored), str(hex2), load -> as `load`
 //   crt / zrt <ty> <value>      -> cache_interface / session_interface store_data then fetch_data (serializable classes): "ok <value tokens>"
 //   zsv <ty> <value>            -> session store_data, save(), next request: load(), fetch_data: "ok <value>" | "toolong" (save_data limit)
+//   zow<m> <ty> <A> <B>         -> session: store_data(k,A), save(); next request store_data(k,B), save(); next request fetch_data -> "ok <B>"
+//                                  (m = 0 client cookies/fixed, 1 server memory/renew, 2 server memory/browser)
+//   cpo <ty> <value>            -> process_shared cache of 512 KB: store_data(k,v), store_data(k,~1 MB object), fetch_data(k) -> "miss" | "hit ..."
 //   cmp <ty> <value> <value>    -> "1" / "0": operator< of the C++ type (key types only)
 //   wr    <hex> <hex>...        -> write_chunk of each word; hex of the archive
 //   load+ rt+ sload+ srt+       -> the same, but the object loaded into is pre-populated with junk (load must replace it)
@@ -23,6 +26,7 @@
 // M.K.V (std::map), P.A.B (std::pair), R.T (booster::shared_ptr), U.T (std::unique_ptr), C.T (booster::copy_ptr),
 // j (cppcms::json::value, value token j<hex of compact text> or ju = undefined), H.T (booster::hold_ptr), K.T (booster::clone_ptr of a
 // clonable serializable class holding T), I.T (booster::intrusive_ptr of a reference counted serializable class holding T),
+// T.A.B (serializable class `int kind; A a; B b;` that serializes a only if kind==1 and b only if kind==2; value tokens: kind, a, b),
 // B.T (serializable class with one member), X.A.B (serializable class with two members),
 // W.T (std::multiset), N.K.V (std::multimap), A<n>.T (T[n], T not arithmetic), p<bytes> also names arithmetic arrays.
 // Value tokens: x<hex> (POD / POD vector bytes), s<hex>, n<count> then the elements, 0 | 1 <value> for pointers.
@@ -104,6 +108,19 @@ struct ibox : public cppcms::serializable, public booster::refcounted {
 	void serialize(archive &a) { a & v; }
 };
 
+// user class with optional members: the kind says which member follows in the archive (a tagged record)
+template<typename A,typename B>
+struct trec : public cppcms::serializable {
+	int kind; A a; B b;
+	trec() : kind(0), a(), b() {}
+	void serialize(archive &ar)
+	{
+		ar & kind;
+		if(kind==1) ar & a;
+		else if(kind==2) ar & b;
+	}
+};
+
 // ---- type names
 template<typename T,typename E=void> struct TN;
 template<> struct TN<unsigned char> { static std::string name() { return "p1"; } };
@@ -134,6 +151,7 @@ template<> struct TN<cppcms::json::value> { static std::string name() { return "
 template<typename T> struct TN<booster::hold_ptr<T> > { static std::string name() { return "H." + TN<T>::name(); } };
 template<typename T> struct TN<booster::clone_ptr<cbox<T> > > { static std::string name() { return "K." + TN<T>::name(); } };
 template<typename T> struct TN<booster::intrusive_ptr<ibox<T> > > { static std::string name() { return "I." + TN<T>::name(); } };
+template<typename A,typename B> struct TN<trec<A,B> > { static std::string name() { return "T." + TN<A>::name() + "." + TN<B>::name(); } };
 template<typename T> struct TN<box<T> > { static std::string name() { return "B." + TN<T>::name(); } };
 template<typename A,typename B> struct TN<rec2<A,B> > { static std::string name() { return "X." + TN<A>::name() + "." + TN<B>::name(); } };
 
@@ -196,6 +214,8 @@ template<typename T> void dump(cbox<T> const &v,std::string &o);
 template<typename T> void parse(Tok &t,cbox<T> &v);
 template<typename T> void dump(ibox<T> const &v,std::string &o);
 template<typename T> void parse(Tok &t,ibox<T> &v);
+template<typename A,typename B> void dump(trec<A,B> const &v,std::string &o);
+template<typename A,typename B> void parse(Tok &t,trec<A,B> &v);
 template<typename T> void dump(box<T> const &v,std::string &o);
 template<typename T> void parse(Tok &t,box<T> &v);
 template<typename A,typename B> void dump(rec2<A,B> const &v,std::string &o);
@@ -305,6 +325,8 @@ template<typename T> void dump(cbox<T> const &v,std::string &o) { dump(v.v,o); }
 template<typename T> void parse(Tok &t,cbox<T> &v) { parse(t,v.v); }
 template<typename T> void dump(ibox<T> const &v,std::string &o) { dump(v.v,o); }
 template<typename T> void parse(Tok &t,ibox<T> &v) { parse(t,v.v); }
+template<typename A,typename B> void dump(trec<A,B> const &v,std::string &o) { dump(v.kind,o); dump(v.a,o); dump(v.b,o); }
+template<typename A,typename B> void parse(Tok &t,trec<A,B> &v) { parse(t,v.kind); parse(t,v.a); parse(t,v.b); }
 template<typename T> void dump(box<T> const &v,std::string &o) { dump(v.v,o); }
 template<typename T> void parse(Tok &t,box<T> &v) { parse(t,v.v); }
 template<typename A,typename B> void dump(rec2<A,B> const &v,std::string &o) { dump(v.a,o); dump(v.b,o); }
@@ -333,6 +355,7 @@ struct Junk {
 	template<typename T> static void j(booster::intrusive_ptr<ibox<T> > &v) { v=new ibox<T>(); j(*v); }
 	template<typename T> static void j(cbox<T> &v) { j(v.v); }
 	template<typename T> static void j(ibox<T> &v) { j(v.v); }
+	template<typename A,typename B> static void j(trec<A,B> &) {}   // a load into a non-fresh tagged record keeps stale optional members by the class's own design
 	template<typename T> static void j(box<T> &v) { j(v.v); }
 	template<typename A,typename B> static void j(rec2<A,B> &v) { j(v.a); j(v.b); }
 };
@@ -381,6 +404,8 @@ struct Ops {
 	std::string (*load2)(std::string const &,std::string const &);
 	std::string (*session_saved)(Tok &);
 	std::string (*cmp)(Tok &);
+	std::string (*session_overwrite)(Tok &);
+	std::string (*cache_big)(Tok &);
 };
 
 template<typename T> std::string do_save(Tok &t)
@@ -591,16 +616,113 @@ template<typename T> std::string do_cmp(Tok &t)
 	else return "bad-op";
 }
 
+// three requests on one browser: store_data(k,A)+save; load, store_data(k,B)+save; load, fetch_data(k) -> must be B.
+// mode 0: client-side cookies (hmac) expire=fixed; 1: server memory, expire=renew; 2: server memory, expire=browser
+static cppcms::session_pool &mode_pool(int mode)
+{
+	static cppcms::session_pool *pools[3]={0,0,0};
+	if(!pools[mode]) {
+		cppcms::json::value cfg;
+		cfg["session"]["timeout"]=3600;
+		if(mode==0) {
+			cfg["session"]["location"]="client";
+			cfg["session"]["expire"]="fixed";
+			cfg["session"]["client"]["hmac"]="sha1";
+			cfg["session"]["client"]["hmac_key"]="232074faa0fd37de20858bf8cd0a7d04";
+		}
+		else {
+			cfg["session"]["location"]="server";
+			cfg["session"]["expire"]= mode==1 ? "renew" : "browser";
+			cfg["session"]["server"]["storage"]="memory";
+		}
+		if(mode==0) pools[mode]=new cppcms::session_pool(cfg);
+		else pools[mode]=new cppcms::session_pool(*new cppcms::service(cfg));   // memory storage needs a service
+		pools[mode]->init();
+	}
+	return *pools[mode];
+}
+static int overwrite_mode=0;
+template<typename T> std::string do_session_overwrite(Tok &t)
+{
+	T a=T(),b=T(); parse(t,a); parse(t,b);
+	cppcms::session_pool &pool=mode_pool(overwrite_mode);
+	jar j;
+	try {
+		{ cppcms::session_interface s(pool,j); s.load(); s.store_data("k",a); s.save(); }
+		{
+			cppcms::session_interface s(pool,j); s.load();
+			T cur=T();
+			if(!s.is_set("k")) return "lost-first";
+			s.fetch_data("k",cur);
+			s.store_data("k",b);
+			s.save();
+		}
+	}
+	catch(cppcms::json::bad_value_cast const &) { return "throw"; }
+	std::string out;
+	cppcms::session_interface s3(pool,j);
+	s3.load();
+	try {
+		T w=T();
+		if(!s3.is_set("k")) return "lost";
+		s3.fetch_data("k",w);
+		out="ok"; dump(w,out);
+	}
+	catch(cppcms::archive_error const &e) { out=err_kind(e.what()); }
+	return out;
+}
+
+// a cache in a small shared-memory segment: an object that fits, then one far too big under the same key;
+// afterwards the key must miss or hold the newest object -- never the old one
+static cppcms::service &the_ps_service()
+{
+	static cppcms::service *srv=0;
+	if(!srv) {
+		cppcms::json::value cfg;
+		cfg["cache"]["backend"]="process_shared";
+		cfg["cache"]["memory"]=512;
+		cfg["cache"]["limit"]=100;
+		cfg["service"]["api"]="http";
+		cfg["service"]["port"]=0;
+		srv=new cppcms::service(cfg);
+	}
+	return *srv;
+}
+template<typename T> std::string do_cache_overwrite_big(Tok &t)
+{
+	T v=T(); parse(t,v);
+	cppcms::cache_interface cache(the_ps_service());
+	std::string out;
+	try {
+		cache.store_data("k",v);
+		{
+			T w=T();
+			if(!cache.fetch_data("k",w)) return "small-missed";     // a miss is legal, but then the case says nothing
+			std::string d1,d2; dump(v,d1); dump(w,d2);
+			if(d1!=d2) return "small-differs";
+		}
+		box<std::vector<std::string> > big;
+		for(int i=0;i<16;i++) big.v.push_back(std::string(64*1024,char('a'+i)));          // ~1 MB > 512 KB segment
+		try { cache.store_data("k",big); } catch(std::bad_alloc const &) {}
+		T w=T();
+		if(!cache.fetch_data("k",w)) return "miss";
+		out="hit"; dump(w,out);
+	}
+	catch(cppcms::json::bad_value_cast const &) { return "throw"; }
+	catch(cppcms::archive_error const &e) { out="hit-"+err_kind(e.what()); }
+	return out;
+}
+
 static std::map<std::string,Ops> registry;
 
 template<typename T> void reg()
 {
-	Ops o={ do_save<T>, do_load<T>, do_rt<T>, 0, 0, 0, 0, 0, do_load2<T>, 0, do_cmp<T> };
+	Ops o={ do_save<T>, do_load<T>, do_rt<T>, 0, 0, 0, 0, 0, do_load2<T>, 0, do_cmp<T>, 0, 0 };
 	registry[TN<T>::name()]=o;
 }
 template<typename T> void regs()
 {
-	Ops o={ do_save<T>, do_load<T>, do_rt<T>, do_ssave<T>, do_sload<T>, do_srt<T>, do_cache<T>, do_session<T>, do_load2<T>, do_session_saved<T>, do_cmp<T> };
+	Ops o={ do_save<T>, do_load<T>, do_rt<T>, do_ssave<T>, do_sload<T>, do_srt<T>, do_cache<T>, do_session<T>, do_load2<T>, do_session_saved<T>, do_cmp<T>, do_session_overwrite<T>, do_cache_overwrite_big<T> };
 	registry[TN<T>::name()]=o;
 }
 
@@ -631,6 +753,10 @@ static void init()
 	regs<box<map<string,u4>[1]> >();
 	reg<set<vector<u2> > >(); reg<map<vector<u4>,u1> >(); reg<set<vector<u8> > >(); reg<set<set<u2> > >(); reg<set<map<u1,string> > >(); reg<set<list<u4> > >();
 	reg<set<std::multiset<string> > >(); reg<set<pair<string,vector<u2> > > >();
+	typedef trec<string,vector<u4> > rec;
+	regs<rec>(); reg<vector<rec> >(); reg<list<rec> >(); reg<map<string,vector<rec> > >(); regs<box<vector<rec> > >();
+	regs<rec2<vector<rec>,map<string,vector<rec> > > >(); regs<trec<rec,string> >(); reg<vector<pair<u4,rec> > >(); reg<list<shared_ptr<rec> > >();
+	reg<vector<trec<u2,map<u1,string> > > >(); reg<std::multimap<u4,vector<rec> > >(); reg<vector<vector<rec> > >();
 	typedef cppcms::json::value jv;
 	reg<jv>(); reg<vector<jv> >(); reg<map<string,jv> >(); reg<shared_ptr<jv> >(); reg<pair<u4,jv> >(); regs<box<jv> >(); regs<rec2<jv,string> >();
 	reg<booster::hold_ptr<string> >(); reg<booster::hold_ptr<vector<u4> > >(); regs<box<booster::hold_ptr<map<string,u2> > > >();
@@ -704,6 +830,8 @@ static std::string run(std::vector<std::string> const &w)
 	if(o2=="srt") return o.srt ? o.srt(t) : "bad-op";
 	if(o2=="crt") return o.cache ? o.cache(t) : "bad-op";        // cache_interface::store_data / fetch_data
 	if(o2=="zrt") return o.session ? o.session(t) : "bad-op";    // session_interface::store_data / fetch_data
+	if(o2=="zow0" || o2=="zow1" || o2=="zow2") { overwrite_mode=o2[3]-'0'; return o.session_overwrite ? o.session_overwrite(t) : "bad-op"; }
+	if(o2=="cpo") return o.cache_big ? o.cache_big(t) : "bad-op";
 	if(o2=="cmp") return o.cmp(t);                               // operator< of two values of a key type
 	if(o2=="zsv") return o.session_saved ? o.session_saved(t) : "bad-op";   // ... with save() and a new request in between
 	if(o2=="load2") {
